@@ -319,6 +319,10 @@ func runCase(w *world, kssKeys map[string]*gabikeys.PublicKey, c aCase, rng *mra
 			in[i].OtherCommitments = o
 		case "negate":
 			in[i].Value, in[i].Commitment = new(big.Int).Neg(in[i].Value), new(big.Int).Neg(in[i].Commitment)
+		case "negateOther":
+			o := append([]*big.Int{}, in[i].OtherCommitments...)
+			o[0] = new(big.Int).Neg(o[0])
+			in[i].OtherCommitments = o
 		case "nonceNil":
 			responseRequest.Nonce = nil
 		case "respNil":
